@@ -40,7 +40,7 @@ var templateLines = []string{
 	"script",
 	"  {tempo}",
 	"  scene a entails for every {sceneevery}: cure",
-	"  scene b entails for alice: {sceneaction}",
+	"  scene b entails for {sceneactor}: {sceneaction}",
 	"  scene c mood starts {mood}",
 	"  storyline {storyline}",
 	"  edit s/{editre}/b/",
@@ -52,12 +52,17 @@ var templateLines = []string{
 	"  {member} watches alice cures",
 	"  obs watches every {watchevery} cures",
 	"  obs2 watches alice {watchsig}",
+	"  obs3 watches {watchactor} cures",
 	"  obs measures {ylabel}",
 	"  aud audits only while {auditexpr}",
 	"  aud collects {cvar} as last 3 {cexpr}",
+	"  aud collects bin2 as {cmode} 2 t",
 	"  aud computes {pvar} as {pexpr}",
 	"  aud expects {modality}: {expexpr}",
 	"  w watches {wvar}",
+	"  aud2 expects like {liketarget}",
+	"  {helper} only helps",
+	"  {measurer} measures things",
 	"end",
 	"interpretation",
 	"  ignore {itarget} disappointment",
@@ -73,7 +78,8 @@ var defaults = map[string]string{
 	"storyline": "ab c", "editre": "zz", "repeatfrom": "a", "count": "3", "dur": "10s", "member": "obs0",
 	"watchevery": "doc", "watchsig": "cures", "ylabel": "cures per second", "auditexpr": "t < 100", "cvar": "bin",
 	"cexpr": "t", "pvar": "last_t", "pexpr": "t * 2", "modality": "always", "expexpr": "t < 50", "wvar": "last_t",
-	"itarget": "aud", "incname": "extra.cfg",
+	"itarget": "aud", "incname": "extra.cfg", "sceneactor": "alice", "watchactor": "alice", "cmode": "last",
+	"liketarget": "aud", "helper": "aud", "measurer": "obs",
 }
 
 // slots: Subst = the field is in the manual's list of substituted places.
@@ -118,6 +124,13 @@ var slots = []slot{
 	{Name: "wvar", Subst: false, Val: "last_t", Alt: "bin", Text: "~p~"},
 	{Name: "itarget", Subst: false, Val: "aud", Alt: "obs", Text: "~p~"},
 	{Name: "incname", Subst: true, Val: "extra", Alt: "nosuch", Text: "~p~.cfg"},
+	// places the manual does NOT list: a defined p must change nothing there
+	{Name: "sceneactor", Subst: false, Val: "alice", Alt: "carol", Text: "~p~"},
+	{Name: "watchactor", Subst: false, Val: "alice", Alt: "carol", Text: "~p~"},
+	{Name: "cmode", Subst: false, Val: "last", Alt: "top", Text: "~p~"},
+	{Name: "liketarget", Subst: false, Val: "aud", Alt: "obs", Text: "~p~"},
+	{Name: "helper", Subst: false, Val: "aud", Alt: "obs", Text: "~p~"},
+	{Name: "measurer", Subst: false, Val: "obs", Alt: "aud", Text: "~p~"},
 }
 
 // extraVals: further values of p for substituted fields — keywords of the
